@@ -7,6 +7,7 @@ import ALV.Lemmas.C04Index
 import ALV.Lemmas.C04PS
 import ALV.Lemmas.C04Sparse
 import ALV.Lemmas.C04Pipeline
+import ALV.Lemmas.C04Hist
 import ALV.Common.Audit
 
 set_option linter.unusedSectionVars false
@@ -432,6 +433,130 @@ theorem filterCall_eq_specCall (numPairs denPairs : List (Int × K)) (mem : Mem 
         simp only [hz', if_false]
         rw [call_eq_spec _ _ mem zero xs hcausal ha0ne (by rw [hb, ha]; exact hz)]
         rw [ha0, hb, ha, fspec_specMem]
+
+/-! ### C04.11 histories: lazily consumed results, shared and mutated arguments, several streams
+
+`filt(x, memory=m, zero=z)` returns a lazy stream.  A history (`HOp`) is any sequence of: the caller
+overwriting one of its lists / coefficient containers, building a filter from two containers,
+calling a filter on an input list with a memory list, requesting `k` more outputs of a stream.
+`histModel` runs it as coded (filter object = normalised `Poly` copies, stream = the suspended
+generated generator with its local variables, fed through a list iterator); `histSpec` is the
+property read per call: every request is answered by the difference equation (`specCall`) of the
+constructor arguments as they were at construction, the memory CONTENTS at the call, and the input
+items delivered so far. -/
+
+/-- **C04.11** (`hist_model_eq_spec`): every step of every history, as coded = as the property
+says.  In particular y[-k] is the k-th item the memory list had when the filter was CALLED (not
+when the output is consumed), the coefficients are those the containers had when the filter was
+BUILT, a second call of the same filter object starts from its own memory, and streams consumed
+interleaved, in any chunking, do not influence one another. -/
+theorem hist_model_eq_spec (ops : List (HOp K)) : histModel ops = histSpec ops :=
+  histModel_eq_histSpec filterCall_eq_specCall ops
+
+/-- **C04.11a** (`hist_consumption_piecewise`): a suspended generator consumed in two requests
+yields what it yields in one, and is left in the same state — the chunking of the consumption is
+unobservable (any generated loop, any local variables). -/
+theorem hist_consumption_piecewise (g : Gen K) (xs zs : List K) :
+    g.feed (xs ++ zs) = ((g.feed xs).1 ++ ((g.feed xs).2.feed zs).1, ((g.feed xs).2.feed zs).2) :=
+  Gen.feed_append g xs zs
+
+/-- **C04.11a'** (`hist_spec_piecewise`): the same on the side of the property — answering from
+the snapshot and the delivered items (`specCall` on everything delivered, minus what was given) is
+independent of how the requests are chunked. -/
+theorem hist_spec_piecewise (s : SStrm K) (xs zs : List K) :
+    (specImpl (α := K)).feed s (xs ++ zs)
+      = (((specImpl (α := K)).feed s xs).1 ++ ((specImpl (α := K)).feed ((specImpl (α := K)).feed s xs).2 zs).1,
+         ((specImpl (α := K)).feed ((specImpl (α := K)).feed s xs).2 zs).2) :=
+  spec_feed_append filterCall_eq_specCall s xs zs
+
+/-- **C04.11b** (`hist_call_is_create_then_feed`): the one-call model of C04.1–C04.10 is the
+history model's call followed by one request for everything. -/
+theorem hist_call_is_create_then_feed (n d : List (Int × K)) (mem : Mem K) (zero : K) (xs : List K) :
+    filterCall n d mem zero xs = (filterGen n d mem zero).map (fun g => (g.feed xs).1) :=
+  filterCall_eq_filterGen n d mem zero xs
+
+/-- **C04.11c** (`hist_uses_are_pure`): constructor, call and consumption never modify a caller's
+object: the lists and containers after a history are what the caller's own mutations leave. -/
+theorem hist_uses_are_pure (ops : List (HOp K)) (st : HState K (Terms K × Terms K) (Gen K)) :
+    (hfinal modelImpl st ops).nums = (hfinal modelImpl st (ops.filter HOp.isStore)).nums
+    ∧ (hfinal modelImpl st ops).coefs = (hfinal modelImpl st (ops.filter HOp.isStore)).coefs :=
+  hfinal_stores modelImpl ops st
+
+/-- **C04.11d** (`hist_memory_is_snapshot`): between two requests the caller may overwrite any
+of its lists other than the stream's own input list — the list it gave as `memory=` included — and
+any coefficient container, any number of times: the next request is answered as if it had not. -/
+theorem hist_memory_is_snapshot (st : HState K (Terms K × Terms K) (Gen K)) (s k : Nat)
+    (stores : List (HOp K)) (hall : ∀ o ∈ stores, HOp.isStore o = true)
+    (hsrc : ∀ c v, HOp.setNums c v ∈ stores → ∀ t, st.strms s = some t → t.src ≠ c) :
+    (hstep modelImpl (hfinal modelImpl st stores) (.take s k)).1 = (hstep modelImpl st (.take s k)).1 :=
+  take_after_stores modelImpl s k stores st hall hsrc
+
+/-- **C04.11e** (`hist_filter_is_snapshot`): a filter object does not look at the containers it
+was built from any more: calling it after they were overwritten behaves as before. -/
+theorem hist_filter_is_snapshot (st : HState K (Terms K × Terms K) (Gen K)) (c : Nat)
+    (v : List (Int × K)) (s f x : Nat) (mem : Option Nat) (zero : K) :
+    (hstep modelImpl (hstep modelImpl st (.setCoefs c v)).2 (.call s f x mem zero)).1
+      = (hstep modelImpl st (.call s f x mem zero)).1 :=
+  call_after_setCoefs modelImpl st c v s f x mem zero
+
+/-- **C04.11f** (`hist_streams_independent`): a request on one stream, and a further call of any
+filter, leave every other live stream exactly as it was suspended, and every filter object as it
+was. -/
+theorem hist_streams_independent (st : HState K (Terms K × Terms K) (Gen K)) (s s' : Nat) (h : s' ≠ s) :
+    (∀ k, (hstep modelImpl st (.take s k)).2.strms s' = st.strms s'
+        ∧ (hstep modelImpl st (.take s k)).2.filts = st.filts)
+    ∧ (∀ f x mem zero, (hstep modelImpl st (.call s f x mem zero)).2.strms s' = st.strms s'
+        ∧ (hstep modelImpl st (.call s f x mem zero)).2.filts = st.filts) :=
+  ⟨fun k => take_frame modelImpl st s k s' h, fun f x mem zero => call_frame modelImpl st s f x mem zero s' h⟩
+
+/-- **C04.11g** (`cascade_model_eq_spec`): the same filter object applied to its own (lazy) output,
+any number of times, each stage with its own memory: as coded = the difference equation applied
+stage by stage. -/
+theorem cascade_model_eq_spec (n d : List (Int × K)) (zero : K) (mems : List (Mem K)) (xs : List K) :
+    cascadeWith (fun m ys => filterCall n d m zero ys) mems xs
+      = cascadeWith (fun m ys => specCall n d m zero ys) mems xs := by
+  have : (fun (m : Mem K) ys => filterCall n d m zero ys) = (fun m ys => specCall n d m zero ys) := by
+    funext m ys
+    exact filterCall_eq_specCall n d m zero ys
+  rw [this]
+
+/-! non-vacuity of C04.11: the docstring filter `ZFilter([1, 1], [1, -1])` in histories -/
+
+/-- memory list overwritten between the call and the consumption: the stream starts from the
+contents at the call (`[3]`), in two requests, and ends with its input -/
+example : histModel (α := Rat)
+    [.setCoefs 0 [(0, 1), (1, 1)], .setCoefs 1 [(0, 1), (1, -1)], .build 0 0 1,
+     .setNums 0 [1, 5, -4, -7, 9], .setNums 1 [3],
+     .call 0 0 0 (some 1) 0, .setNums 1 [100], .take 0 2, .setCoefs 1 [(0, 1), (1, 5)], .take 0 9]
+    = [.stored, .stored, .ok, .stored, .stored, .ok, .stored, .outs [4, 10] false, .stored,
+       .outs [11, 0, 2] true] := by decide +kernel
+example : histSpec (α := Rat)
+    [.setCoefs 0 [(0, 1), (1, 1)], .setCoefs 1 [(0, 1), (1, -1)], .build 0 0 1,
+     .setNums 0 [1, 5, -4, -7, 9], .setNums 1 [3],
+     .call 0 0 0 (some 1) 0, .setNums 1 [100], .take 0 2, .setCoefs 1 [(0, 1), (1, 5)], .take 0 9]
+    = [.stored, .stored, .ok, .stored, .stored, .ok, .stored, .outs [4, 10] false, .stored,
+       .outs [11, 0, 2] true] := by decide +kernel
+/-- the same filter object called twice, the two streams consumed interleaved; the second call
+has its own memory; the input list grows while the first stream is pending and is read lazily;
+a non-causal filter refuses at the call, an unknown name is reported as such -/
+example : histModel (α := Rat)
+    [.setCoefs 0 [(0, 1), (1, 1)], .setCoefs 1 [(0, 1), (1, -1)], .build 0 0 1,
+     .setNums 0 [1, 5], .setNums 1 [3], .call 0 0 0 (some 1) 0, .setNums 1 [-1], .call 1 0 0 (some 1) 0,
+     .take 0 1, .take 1 1, .setNums 0 [1, 5, -4], .take 1 5, .take 0 5, .take 0 1,
+     .setCoefs 2 [(-1, 1)], .build 1 2 1, .call 2 1 0 none 0, .take 2 1]
+    = [.stored, .stored, .ok, .stored, .stored, .ok, .stored, .ok,
+       .outs [4] false, .outs [0] false, .stored, .outs [6, 7] true, .outs [10, 11] true, .outs [] true,
+       .stored, .ok, .err .valueError, .unbound] := by decide +kernel
+/-- hypotheses of C04.11d are satisfiable: a live stream reading list 0, the caller overwrites
+list 1 (its memory list) and a container -/
+example := hist_memory_is_snapshot (K := ℚ)
+  ⟨fun _ => [1, 5], fun _ => [], fun _ => none, fun _ => some ⟨Gen.const 7, 0, 0, false⟩⟩
+  0 2 [.setNums 1 [100], .setCoefs 1 []] (by simp [HOp.isStore])
+  (by intro c v hm t ht
+      simp at hm
+      simp only [Option.some.injEq] at ht
+      subst ht
+      simp [hm.1])
 
 end ALV.Props.C04
 
